@@ -45,10 +45,25 @@ type CTok struct {
 
 // Sentence is one derivation.
 type Sentence struct {
-	Root  string // name of the root production
-	Kind  string // "query", "ddl", "dml", "call", "expr", "type"
-	Src   []Tok
-	Canon []CTok
+	Root     string // name of the root production
+	Kind     string // "query", "ddl", "dml", "call", "expr", "type"
+	Src      []Tok
+	Canon    []CTok
+	CanonSrc []int // for each canonical token the index of the source token it was emitted with/after (-1: none)
+}
+
+// Offsets returns the byte offset of each source token in Text().
+func (s *Sentence) Offsets() []int {
+	out := make([]int, len(s.Src))
+	off := 0
+	for i, t := range s.Src {
+		out[i] = off
+		off += len(t.Text)
+		if i+1 < len(s.Src) && !t.NoGap {
+			off++
+		}
+	}
+	return out
 }
 
 // Text is the default spelling: tokens separated by one blank.
@@ -68,6 +83,7 @@ type G struct {
 	c     *explore.Ctx
 	src   []Tok
 	canon []CTok
+	csrc  []int
 	nid   int
 	depth int
 	mute  int // >0: emit to source only / canon only
@@ -82,6 +98,7 @@ func (g *G) emit(t Tok) {
 	}
 	if g.only != 1 {
 		g.canon = append(g.canon, CTok{t.Class, canonVal(t)})
+		g.csrc = append(g.csrc, len(g.src)-1)
 	}
 }
 
@@ -221,7 +238,7 @@ type Root struct {
 func Derive(c *explore.Ctx, r *Root) *Sentence {
 	g := &G{c: c}
 	r.Gen(g)
-	return &Sentence{Root: r.Name, Kind: r.Kind, Src: g.src, Canon: g.canon}
+	return &Sentence{Root: r.Name, Kind: r.Kind, Src: g.src, Canon: g.canon, CanonSrc: g.csrc}
 }
 
 // Roots lists every root production.
